@@ -317,3 +317,29 @@ func VH_C11_CSVerifyBlob() {
 		}
 	}
 }
+
+// H11.csblob-pages: the page size and code limit VerifyPages works with come
+// from the code directory of the file being verified (signed by whoever made
+// the file). For an ARBITRARY page-size exponent (0..255) and code limit, one
+// or two slots and a short stream: an error or a verdict - no buffer sized by
+// 2^exponent beyond the limit, no panic for exponents of 63 and above.
+func VH_C11_CSVerifyPagesHeader() {
+	dir := &CodeDirectory{HashFunc: crypto.SHA256}
+	dir.Header.PageSizeLog2 = vhU8("page-size-exponent")
+	dir.Header.CodeLimit = vhU32("code-limit")
+	dir.Header.HashType = HashSHA256
+	n := vhConcretize(vhInt("slots", 1, 2), 3)
+	for i := 0; i < n; i++ {
+		dir.CodeHashes = append(dir.CodeHashes, vhBytes("slot", 32))
+	}
+	code := vhBytes("code", 8)
+	vhAllocLimit(4<<20 + 16*len(code))
+	vhLoopBound(64)
+	vhMaxLen(64)
+	err := (&SigBlob{Directories: []*CodeDirectory{dir}}).VerifyPages(bytes.NewReader(code))
+	if err == nil {
+		vhReach("accepted")
+	} else {
+		vhReach("rejected") // vh:require rejected
+	}
+}
